@@ -71,34 +71,34 @@ CLAIMS = {
         text='Bounded stand-in carries the property: every class variant of a table-driven generator (all types of both versions, minimal / each optional / all optional, 2-3 value '
              'classes) plus custom properties and 12 special shapes: parse(serialize(o)) == o with the same class, byte-identical second serialization, 48 option sets denote '
              'the same JSON value up to defaulted optional properties, pretty order == frozen specification order. A small proved core (encoder default methods, timestamp '
-             'fixed point, detection, no memoisation of lookups) supports it.',
+             'fixed point, detection, no memoisation of lookups) supports it. Also under contract: v20 _should_set_millisecond (fixed-point clause), ObservableProperty.clean (reference scope / member / version call-site obligations), parse_into_datetime for datetime and STIXdatetime inputs.',
         note='simplejson assumed; NaN outside the quantifier; the generator is as complete as spec/tables_* and the seeds in vf/objgen.py.',
         technique='bounded exhaustive enumeration against the object itself (stand-in), with contract-proved core functions (PyVC + z3)'),
     'C02': dict(category='other', design_ref='DESIGN.md section 3 C02',
         text='Proved: language of every lexical regex == specification grammar (two inclusion queries each, concrete witness strings), _validate_type / IntegerProperty.clean iff '
              'contracts, ten timestamp-order co-constraints, the three inter-property helpers of _STIXBase (iff, nested loop invariants), strict-mode refusal of custom content in List/Hashes/Reference/Extensions cleaners, Enum/Hex/Dictionary/Float cleaners (iff), the raw-input prefix of _STIXBase.__init__ as a region contract (extensions scan invariant: unknown-property refusal iff some name is neither declared nor contributed by a registered toplevel-property-extension), validators read no mutable module state. '
-             'Exhaustive table invariant (1382 property slots == frozen model). Bounded fault enumeration: (type, property, corruption kind) -> error or output accepted by an independent validator.',
+             'Exhaustive table invariant (1382 property slots == frozen model). Bounded fault enumeration: (type, property, corruption kind) -> error or output accepted by an independent validator. Further contracts shared with other properties: parse_into_datetime (4 input kinds) and format_datetime, ObservableProperty.clean, IntegerProperty for bool input; native families of these contracts run on every run; ready-made nested objects of another class than the slot is for (bounded).',
         note='The frozen tables were bootstrapped from the tree after the fix commits (a regression oracle reviewed where the library was known to deviate); the per-property loop of _STIXBase.__init__ (after the cut of the region contract) is bounded only; pattern validity delegated to stix2patterns.',
         technique='regular-language equivalence and cleaner contracts by deductive verification (PyVC + z3 regex/LIA); exhaustive table comparison; bounded fault enumeration with an independent validator'),
     'C03': dict(category='other', design_ref='DESIGN.md section 3 C03',
         text='Proved acceptance halves (every string of each specification grammar accepted; valid integers/type names accepted; co-constraints raise only when violated; dispatch). '
              'Bounded: generated specification-valid objects (checked by the independent validator) are accepted in strict mode bare / in a bundle / as observed-data member and preserved; '
-             'every vocabulary entry and legal reference target; granular markings on every path; frozen acceptance list.',
+             'every vocabulary entry and legal reference target; granular markings on every path; frozen acceptance list. Shared contracts: the __init__ region contract with its extension-scan family, the three selector functions with their family.',
         note='Known finding: timestamps with >= 7 fraction digits are rejected. Completeness of the generator w.r.t. the prose specification is not claimed.',
         technique='deductive verification of acceptance directions (PyVC + z3); bounded generator-driven acceptance/preservation check'),
     'C04': dict(category='other', design_ref='DESIGN.md section 3 C04',
         text='Proved: custom-flag protocol of ListProperty / HashesProperty / ReferenceProperty / ExtensionsProperty.clean (prefix invariants: flag == OR over parts, strict => none; the reference cleaner passes its own spec version to every registry query), dict_to_stix2 unknown-type handling, and the unknown-property decision of _STIXBase.__init__ (region contract). '
-             'Bounded: every valid object x injection site x custom kind x both switch settings: strict refusal, and has_custom <=> strict re-parse of the serialization refused.',
+             'Bounded: every valid object x injection site x custom kind x both switch settings: strict refusal, and has_custom <=> strict re-parse of the serialization refused. ObservableProperty.clean contract; extension-scan history family; seven strict readers of what a permissive sink wrote (bounded).',
         note='Known finding: the documented custom_properties keyword admits custom properties in strict mode. Unregistered extension-definition extensions are sanctioned by the library (not treated as custom).',
         technique='loop-invariant proofs of the customisation protocol (PyVC + z3); bounded injection enumeration'),
     'C06': dict(category='other', design_ref='DESIGN.md section 3 C06',
         text='Proved: _choose_one_hash priority order; the 2.1 observable constructor replaces the id iff none was given and one was generated; id code reads no mutable state. Exhaustive: '
-             'id-contributing lists == frozen model, namespace constant. Bounded: ids of every SCO type x variants x boundary values equal an independent recomputation (own RFC 8785 + SHA-1), determinism across orders / round trips / processes.',
+             'id-contributing lists == frozen model, namespace constant. Bounded: ids of every SCO type x variants x boundary values equal an independent recomputation (own RFC 8785 + SHA-1), determinism across orders / round trips / processes. parse_into_datetime contracts (one instant, one id whatever value kind carried it); hash dictionaries in every order and nested in contributing values (bounded).',
         note='_generate_id loop and _make_json_serializable are covered by the bounded recomputation only; SHA-1 collision freedom assumed.',
         technique='contract proofs of the selection logic (PyVC + z3); bounded comparison with an independent canonicalizer + UUIDv5'),
     'C07': dict(category='exploration', design_ref='DESIGN.md section 3 C07',
         text='Bounded stand-in carries the granular laws: states reachable by <= 2 adds on 3 base objects x 10 selectors (incl. string-prefix siblings) x 3 markings x flag combinations against a set model; '
-             'object-level operations are proved as set algebra (add = union, remove = difference with MarkingNotFoundError iff absent, is_marked, clear).',
+             'object-level operations are proved as set algebra (add = union, remove = difference with MarkingNotFoundError iff absent, is_marked, clear). The selector functions (_evaluate_expression, _validate_selector, validate) are under contract here as well, with a native family over every path and near miss of three objects.',
         note='Granular functions (nested loops over nested data) are outside the verified subset.',
         technique='bounded enumeration against a set model; set-algebra contracts for object-level markings (PyVC + z3 arrays)'),
     'C08': dict(category='other', design_ref='DESIGN.md section 3 C08',
@@ -109,15 +109,15 @@ CLAIMS = {
     'C09': dict(category='exploration', design_ref='DESIGN.md section 3 C09',
         text='Bounded stand-in: totality, reflexivity, symmetry, transitivity and SOUNDNESS against an independent evaluator of the patterning semantics on a generated pattern family and 1.6k+ observation sequences; '
              'documented rewrite laws recognised; find == filter. Leaf comparators (generic_cmp, iter_in) are proved and their order lemmas discharged.',
-        note='Soundness beyond the bounded universe is not claimed; ANTLR parser assumed; special-value canonicalisations not exercised.',
+        note='Soundness beyond the bounded universe is not claimed; ANTLR parser assumed; special-value canonicalisations not exercised. Known finding: a comparison AND whose operands share no object type is refused by the pattern object model (ValueError).',
         technique='bounded enumeration with an independent semantics evaluator; leaf comparator contracts (PyVC + z3)'),
     'C10': dict(category='exploration', design_ref='DESIGN.md section 3 C10',
         text='Bounded stand-in only: generated pattern trees printed with an independent precedence-aware printer; text -> object model -> text -> independent reader gives the same tree; print o parse fixed point; the same trees built through the public model classes read back identically; both grammars.',
-        note='No clause proved (ANTLR visitor and %-formatting over opaque objects are outside the verified subset).',
+        note='No clause proved (ANTLR visitor and %-formatting over opaque objects are outside the verified subset). Known finding: [a:x = 1 AND b:x = 1] is valid text that create_pattern_object refuses.',
         technique='bounded grammar-driven round-trip enumeration with an independent reader'),
     'C13': dict(category='exploration', design_ref='DESIGN.md section 3 C13',
         text='Bounded stand-in: deep snapshots of arguments and of existing objects around 26 public operations singly and in pairs on nested shapes; assignment/deletion refused; deepcopy equal and disjoint (id walk). '
-             'Proved core: __setattr__ refuses every public name; __deepcopy__ builds from copy.deepcopy(self._inner) and stores only into that private copy.',
+             'Proved core: __setattr__ refuses every public name; __deepcopy__ builds from copy.deepcopy(self._inner) and stores only into that private copy. parse_into_datetime is proved here with a frame obligation: no attribute store or in-place mutation through any alias of a record argument.',
         note='General absence of aliasing writes needs an ownership discipline Python lacks: bounded only.',
         technique='bounded frame checking with deep snapshots; contract proofs of __setattr__/__deepcopy__ (PyVC + z3)'),
     'C16': dict(category='exploration', design_ref='DESIGN.md section 3 C16',
@@ -126,7 +126,7 @@ CLAIMS = {
         technique='bounded differential testing against an independent specification function'),
     'C19': dict(category='other', design_ref='DESIGN.md section 3 C19',
         text='Proved: each _register_* is exact and exclusive (duplicate => DuplicateRegistrationError with no registry store; success => exactly one store into the chosen version/category map, name was free); '
-             'type-name grammar == specification per version; the extensions scan of _STIXBase.__init__ counts every registered toplevel-property-extension entry whatever its position (region contract); validators read no mutable module state. Bounded: registration histories in fresh subprocesses, version scoping of parse, round trip of registered types, reference-property naming rule.',
+             'type-name grammar == specification per version; the extensions scan of _STIXBase.__init__ counts every registered toplevel-property-extension entry whatever its position (region contract); validators read no mutable module state. Bounded: registration histories in fresh subprocesses, version scoping of parse, round trip of registered types, reference-property naming rule. Cross-version / cross-class scenarios in fresh subprocesses (one undecorated class under both versions; marking definitions naming one registered marking but holding another).',
         note='Known finding: custom property names are checked for their first character only.',
         technique='deductive verification of the registration functions with ghost store records (PyVC + z3); bounded history enumeration in subprocesses'),
 }
